@@ -29,7 +29,8 @@ type gnode struct {
 }
 
 var encLists = [][]any{nil, {`"`}, {[]string{"(", ")"}}, {[]string{"(", ")"}, `"`}, {[]string{"[", "]"}, []string{"<"}}}
-var encModel = [][][]string{nil, {{`"`}}, {{"(", ")"}}, {{"(", ")"}, {`"`}}, {{"[", "]"}, {"<"}}}
+var encModel = [][][]string{nil, {{`"`}}, {{"(", ")"}}, {{"(", ")"}, {`"`}}, {{"[", "]"}, {"<"}},
+	{{"<", ">"}}, {{"<"}}, {{">"}}} // 5..7: used by c02SharedEncap only
 
 func (n gnode) cfgString() string {
 	var f []string
@@ -352,6 +353,75 @@ func c02Reconfigure(c *Ctx, n gnode, count bool) {
 	}
 }
 
+// c02SharedEncap: two instances configured from parts of ONE slice the caller keeps (the whole pair for
+// one, a one-element part with spare room behind it for the other), in both orders, Stacks of every kind
+// and Conditions: each renders with exactly the scheme it was given, before and after the other one is
+// configured and rendered, and the caller's slice is not written to.
+func c02SharedEncap(c *Ctx) int {
+	n := 0
+	type inst struct {
+		name  string
+		mk    func(enc ...any) fmt.Stringer
+		model func(enc int) gnode
+	}
+	var insts []inst
+	for _, k := range kindNames {
+		k := k
+		insts = append(insts, inst{k, func(enc ...any) fmt.Stringer { return newStackKind(k).SetEncap(enc...).Push("x", "y") },
+			func(enc int) gnode {
+				return gnode{T: "stack", Kind: k, Enc: enc, Kids: []gnode{{T: "leaf", V: "x"}, {T: "leaf", V: "y"}}}
+			}})
+	}
+	insts = append(insts, inst{"Condition", func(enc ...any) fmt.Stringer { return stackage.Cond("k", stackage.Eq, "v").SetEncap(enc...) },
+		func(enc int) gnode {
+			return gnode{T: "cond", Kw: "k", Op: 1, Enc: enc, Kids: []gnode{{T: "leaf", V: "v"}}}
+		}})
+	for _, a := range insts {
+		for _, b := range insts {
+			for order := 0; order < 2; order++ {
+				for part := 0; part < 2; part++ {
+					n++
+					c.Transitions.Add(1)
+					own := []string{"<", ">"}
+					partArg, partEnc := own[:1], 6
+					if part == 1 {
+						partArg, partEnc = own[1:], 7
+					}
+					var whole, piece fmt.Stringer
+					p := noPanic(func() {
+						if order == 0 {
+							whole = a.mk(own)
+							_ = whole.String()
+							piece = b.mk(partArg)
+						} else {
+							piece = b.mk(partArg)
+							_ = piece.String()
+							whole = a.mk(own)
+						}
+					})
+					desc := fmt.Sprintf("%s.SetEncap(own) and %s.SetEncap(own[%d:%d]) (order %d), own = [\"<\" \">\"]", a.name, b.name, part, part+1, order)
+					if p != "" {
+						c.Violation("panic:shared-encap", desc+": "+p, nil, 0)
+						continue
+					}
+					for round := 0; round < 2; round++ {
+						if got, want := whole.String(), a.model(5).ref(); got != want {
+							c.Violation("render:shared-encap-slice", fmt.Sprintf("%s: the instance given the whole pair renders %q want %q", desc, got, want), nil, 0)
+						}
+						if got, want := piece.String(), b.model(partEnc).ref(); got != want {
+							c.Violation("render:shared-encap-slice", fmt.Sprintf("%s: the instance given the one-element part renders %q want %q", desc, got, want), nil, 0)
+						}
+					}
+					if own[0] != "<" || own[1] != ">" {
+						c.Violation("caller-slice-modified:SetEncap", fmt.Sprintf("%s: the caller's slice now reads %q", desc, own), nil, 0)
+					}
+				}
+			}
+		}
+	}
+	return n
+}
+
 // c02Class names the feature most likely involved, for stable violation keys.
 func c02Class(n gnode, got, want string) string {
 	nonASCII := func(s string) bool {
@@ -514,6 +584,7 @@ func init() {
 			}
 			c02Check(c, trees[i], true)
 		})
+		c.Bound["shared_encapsulation_slice_cases"] = c02SharedEncap(c)
 		c.States.Store(int64(len(trees)))
 		c.Exhaustive = true
 		c.Bound["trees"] = len(trees)
